@@ -88,6 +88,21 @@ func oracleC05(w *h.Worker, b *h.Built, inst string, st *trie.SlimTrie, u *input
 			return &h.Viol{Sig: "marshal-error", Msg: "Marshal failed: " + err.Error()}
 		}
 		w.Trans++
+		// a stream belongs to its caller: serialising ANOTHER trie (and asking for
+		// sizes) while the caller still holds it must not change it
+		{
+			orig := append([]byte{}, buf...)
+			other, perr := h.Build(&h.Case{Keys: bystanderKeys, ValIDs: []int{3, 2, 2, 1}, Enc: "I32", Opt: h.Opt4{D: 0, I: 0, L: 0, C: 1}})
+			if perr == nil && other.Err == nil {
+				other.ST.Marshal()
+				proto.Marshal(other.ST)
+				proto.Size(other.ST)
+			}
+			proto.Size(st)
+			if !bytes.Equal(buf, orig) {
+				return &h.Viol{Sig: "marshal-output-not-stable", Msg: fmt.Sprintf("the bytes Marshal returned changed while the caller held them and another trie was serialised (first difference at byte %d of %d)", firstDiff(buf, orig), len(orig))}
+			}
+		}
 		rebuilds := 3
 		if len(b.Keys) < 9 {
 			rebuilds = 1 // too small for a short table: no frequency ties to break
@@ -201,7 +216,7 @@ func histAlphabet(sp *spaceCtx) []histStream {
 			panic(fmt.Sprint("alphabet build failed: ", p, b.Err))
 		}
 		buf, _ := b.ST.Marshal()
-		return buf
+		return append([]byte{}, buf...)
 	}
 	ids := func(n int) []int {
 		r := make([]int, n)
